@@ -177,13 +177,13 @@ def run(ctx, chk):
                                 for e in events:
                                     if e[0] == 'escbound':
                                         sub[list(e[1].t)[0]] = e[2]
-                                deltas.setdefault((nb, s2p), {}).setdefault('W', {}).setdefault((start, end, _akey(atoms)), []).append((d.subst(sub), loc or f.loc))
+                                deltas.setdefault((nb, s2p), {}).setdefault('W', {}).setdefault((start, end, _akey(atoms) + _nkey(notes)), []).append((d.subst(sub), loc or f.loc))
                         else:
                             r_end = env.get('(*charsRequired)')
                             r_start = dict(notes.get('start_vals', ())).get('(*charsRequired)')
                             if isinstance(r_end, Lin) and isinstance(end, int):
                                 d = r_end if r_start is None else r_end - r_start
-                                deltas.setdefault((nb, s2p), {}).setdefault('R', {}).setdefault((start, end, _akey(atoms)), []).append((d, loc or f.loc))
+                                deltas.setdefault((nb, s2p), {}).setdefault('R', {}).setdefault((start, end, _akey(atoms) + _nkey(notes)), []).append((d, loc or f.loc))
                         # integer guards: int-typed arithmetic results
                         for ev in events:
                             if ev[0] == 'intop':
@@ -234,6 +234,11 @@ _NN = _NNC()
 
 def _akey(atoms):
     return ';'.join(sorted('%s%s' % ('' if t else '!', a) for a, t in atoms if not a.endswith('<= 0') and 'charsWritten' not in a))[:200]
+
+
+def _nkey(notes):
+    return '|' + ';'.join(sorted('%s%s' % ('' if v else '!', k[1]) for k, v in notes.items()
+                                 if isinstance(k, tuple) and k[0] == 'nonnull' and 'queryList->' in str(k[1])))
 
 
 def _int_guards(ctx, chk, f, eng, bn, INTMAX, fac):
